@@ -266,7 +266,9 @@ def _routing_nodes(cfg):
 
 def _check_response_handler(ctx, cg, h, rsp):
     q = h.qualname
-    hn = inline.expanded(ctx, h)  # a shared "hand over to the waiting sender" helper is part of the handler
+    from .. import normal
+
+    hn = normal.normalised(ctx, h, comps=False, ifexp=False)  # a shared "hand over to the waiting sender" helper is part of the handler; a local for the system bytes is spelled out
     cfg = cfg_of(hn)
     param = hn.args.args[1].arg
     routes = _routing_nodes(cfg)
@@ -433,10 +435,14 @@ def check_wiring(ctx):
     # state handlers
     init = _method(repo, "HsmsProtocol", "__init__")
     regs = {}
-    for c in calls_in(init.node):
-        if isinstance(c.func, ast.Attribute) and c.func.attr == "register" and c.args:
-            recv = dotted(c.func.value) or ""
-            regs[recv] = dotted(c.args[0])
+    from .. import normal
+
+    init_fn = normal.normalised(ctx, init, comps=False, ifexp=False)  # `events = machine.connected.events; events.enter.register(...)` is spelled out
+    for c in calls_in(init_fn):
+        if isinstance(c.func, ast.Attribute) and c.func.attr == "register" and (c.args or c.keywords):
+            recv = rules.expand(init_fn, c.func.value)
+            arg = c.args[0] if c.args else c.keywords[0].value
+            regs[recv] = dotted(arg)
     want = {
         "self._connection_state.connected.events.enter": "arm",
         "self._connection_state.connected.events.leave": "cancel",
@@ -450,7 +456,7 @@ def check_wiring(ctx):
             continue
         hm = _method(repo, "HsmsProtocol", h.split(".")[-1])
         ctx.touch(hm)
-        names = [call_name(c) or "" for c in calls_in(hm.node)]
+        names = [call_name(c) or "" for c in calls_in(inline.expanded(ctx, hm, keep={"_start_linktest_timer"}))]  # with private helpers of the handler
         if role == "arm":
             ok = "self._start_linktest_timer" in names
             ctx.ob("C05.P5", hm.qualname, ok, "entering CONNECTED arms the linktest timer" if ok else "entering CONNECTED does not arm the linktest timer", where=hm.where)
